@@ -339,6 +339,16 @@ def graph_ops(lg, ids, bounds):
         if i is None:
             raise KeyError(name)
         return i
+    # hypothesis `LRange.wf` of C04_gen_run_is_runFromReg: a link range holds entries of ONE link (so of one class), ranges are contiguous
+    seen = {}
+    last = None
+    for e in lg['entries']:
+        if 'lr' in e:
+            if seen.setdefault(e['lr'], e['t']) != e['t']:
+                return L, 'link range %s holds entries of different link types' % e['lr']
+            if last is not None and e['lr'] < last:
+                return L, 'link ranges are not dumped in order'
+            last = e['lr']
     try:
         for e in lg['entries']:
             t = e['t']
@@ -514,10 +524,10 @@ def run(ck):
     ck.log((out.strip() or err.strip())[-300:])
     translator_ok = rc == 0
     if translator_ok:
-        proof_ok, failing = ck.proof_stage('MpVerif.C04.Props', 'MpVerif/C04/Props.lean', 'C04_', ['MpVerif/C04/*.lean', 'MpVerif/Gen/ValCvt.lean'], expect_min=61)
+        proof_ok, failing = ck.proof_stage('MpVerif.C04.Props', 'MpVerif/C04/Props.lean', 'C04_', ['MpVerif/C04/*.lean', 'MpVerif/Gen/ValCvt.lean'], expect_min=66)
     else:
         proof_ok, failing = False, ['translator: ' + (out + err).strip()[-400:]]
-        ck.cov.update({'obligations': 61, 'discharged': 0, 'checker_cmd': 'translators/gen_valcvt.py failed: a construct of the anchored code is no longer understood'})
+        ck.cov.update({'obligations': 66, 'discharged': 0, 'checker_cmd': 'translators/gen_valcvt.py failed: a construct of the anchored code is no longer understood'})
     ck.log('proof stage: ok=%s failing=%s' % (proof_ok, failing[:8]))
     if ck.tier == 'thorough' and proof_ok:
         bad = ck.leanchecker(['MpVerif.C04.Props'])
@@ -562,7 +572,9 @@ def run(ck):
         certificates_shared(ck, c, st)
     if cov:
         coverage_report(ck, covdir, os.environ.get('VERIF_COVERAGE_LABEL', 'last'))
-    elif not os.environ.get('C04_NO_SANITIZER'):      # (used when trying hand mutants: saves building the ASan driver of the mutated tree)
+    elif (ck.tier == 'thorough' or os.environ.get('C04_SANITIZER')) and not os.environ.get('C04_NO_SANITIZER'):
+        # ASan+UBSan build of the recording driver: thorough tier (or C04_SANITIZER=1); building it takes minutes whenever a recsolver
+        # source changes, and no seeded change needs it.  The open finding C04-short-primal-solchecker-oob is reproduced mostly by this stage (in quick only when the plain driver happens to die).
         sanitizer_stream(ck, cases, st)
     verdicts(ck, cases, st, proof_ok, failing)
 
@@ -813,12 +825,21 @@ def write_calls(path, calls):
     open(path, 'w').write('\n'.join(L) + ('\n' if L else ''))
 
 
+def run_retry(*a, **kw):
+    """recsolver.run; a run over the time limit (machine load) is retried once with twice the limit before it is reported"""
+    r = recsolver.run(*a, **kw)
+    if r['rc'] == 'timeout':
+        kw['timeout'] = 2 * kw.get('timeout', 60)
+        r = recsolver.run(*a, **kw)
+    return r
+
+
 def execute_case(ck, exe, c, st):
     """run the real driver (twice: sizes, then the scripted answer)"""
     c.problem = None
     c.flows = []
     if not hasattr(c, 'script'):
-        r0 = recsolver.run(exe, c.stub, options=[o for o in c.options if not o.startswith('alg:start')] + ['alg:start=0'],
+        r0 = run_retry(exe, c.stub, options=[o for o in c.options if not o.startswith('alg:start')] + ['alg:start=0'],
                            accept=c.accept, env=env_of(c), timeout=120)
         st.n_runs += 1
         if r0['rc'] != 0 or not any(e['ev'] == 'linkgraph' for e in r0['log']):
@@ -843,7 +864,7 @@ def execute_case(ck, exe, c, st):
                            iiscong=s.get('iiscong'), extra=s.get('extra'))
     cfile = c.stub + '.calls'
     write_calls(cfile, c.calls)
-    r = recsolver.run(exe, c.stub, options=c.options, accept=c.accept, script=sfile, env=env_of(c, cfile), timeout=120, graph=getattr(c, 'writegraph', False))
+    r = run_retry(exe, c.stub, options=c.options, accept=c.accept, script=sfile, env=env_of(c, cfile), timeout=120, graph=getattr(c, 'writegraph', False))
     st.n_runs += 1
     c.r = r
     lg = [e for e in r['log'] if e['ev'] == 'linkgraph']
@@ -1656,7 +1677,7 @@ def sanitizer_stream(ck, cases, st):
     todo = todo[:(20 if ck.tier == 'quick' else 250)]
     nrun = 0
     for c in todo:
-        r = recsolver.run(exe, c.stub, options=c.options, accept=c.accept, script=c.stub + '.script', env=dict(env_of(c, c.stub + '.calls'), **san_env), timeout=300)
+        r = run_retry(exe, c.stub, options=c.options, accept=c.accept, script=c.stub + '.script', env=dict(env_of(c, c.stub + '.calls'), **san_env), timeout=300)
         nrun += 1
         if r['rc'] != 0 and ('Sanitizer' in r['err'] or 'runtime error' in r['err']):
             sig, frames = classify_sanitizer(r['err'])
@@ -1677,7 +1698,7 @@ def sanitizer_stream(ck, cases, st):
     m.write(stub)
     c = Case()
     c.stub, c.model, c.accept, c.options, c.ismip, c.calls, c.script = stub, m, ['LinConLE', 'LinConEQ', 'LinConGE', 'QuadConLE', 'QuadConEQ', 'QuadConGE'], ['alg:start=1'], 0, [], {'code': 0}
-    r = recsolver.run(exe, stub, options=c.options, accept=c.accept, env=dict(env_of(c), **san_env), timeout=300)
+    r = run_retry(exe, stub, options=c.options, accept=c.accept, env=dict(env_of(c), **san_env), timeout=300)
     nrun += 1
     st.feat['sanitizer_runs'] = nrun
     if r['rc'] != 0 and ('Sanitizer' in r['err'] or 'runtime error' in r['err']):
